@@ -5,12 +5,12 @@ PROPS = {
     'C01': ['contracts.c12_cbc_check', 'contracts.recordlayer', 'contracts.sendmsg', 'contracts.m2_posthandshake', 'contracts.m2_recordio', 'contracts.transport', 'contracts.small_extras', 'contracts.m2_tls13_states'],
     'C02': ['contracts.c12_cbc_check', 'contracts.recordlayer', 'contracts.m2_recordlayer', 'contracts.m2_recordio', 'contracts.m2_getmsg', 'contracts.defragmenter', 'contracts.ciphers', 'contracts.links', 'contracts.m2_sslv2_record'],
     'C18': ['contracts.sessioncache'],
-    'C19': ['contracts.settings', 'contracts.m2_server', 'contracts.m2_client', 'contracts.settings_copy', 'contracts.ecc_tables'],
-    'C20': ['contracts.suites', 'contracts.m2_client', 'contracts.m2_server', 'contracts.m2_factory'],
+    'C19': ['contracts.settings', 'contracts.m2_server', 'contracts.m2_client', 'contracts.settings_copy', 'contracts.ecc_tables', 'contracts.links'],
+    'C20': ['contracts.suites', 'contracts.m2_client', 'contracts.m2_server', 'contracts.m2_factory', 'contracts.links'],
     'C03': ['contracts.suites', 'contracts.m2_client', 'contracts.m2_server', 'contracts.m2_keyschedule', 'contracts.m2_tls13_states', 'contracts.m2_exporter', 'contracts.m2_factory', 'contracts.settings_copy'],
     'C05': ['contracts.m2_client13', 'contracts.m2_client', 'contracts.m2_posthandshake', 'contracts.m2_server', 'contracts.m2_signverify', 'contracts.m2_binders', 'contracts.m2_server13', 'contracts.settings_copy'],
     'C04': ['contracts.m2_client', 'contracts.m2_getmsg', 'contracts.m2_server', 'contracts.m2_keyschedule', 'contracts.m2_binders', 'contracts.m2_client13_order', 'contracts.settings_copy'],
-    'C06': ['contracts.m2_client', 'contracts.m2_getmsg', 'contracts.defragmenter', 'contracts.m2_server13', 'contracts.m2_server', 'contracts.m2_client13_order'],
+    'C06': ['contracts.m2_client', 'contracts.m2_getmsg', 'contracts.defragmenter', 'contracts.m2_server13', 'contracts.m2_server', 'contracts.m2_client13_order', 'contracts.links'],
     'C13': ['contracts.m2_client', 'contracts.m2_posthandshake', 'contracts.m2_server', 'contracts.small_extras', 'contracts.m2_binders', 'contracts.m2_server13', 'contracts.m2_factory'],
     'C09': ['contracts.kdf', 'contracts.ciphers', 'contracts.m2_tls13_states', 'contracts.m2_exporter', 'contracts.links'],
     'C15': ['contracts.codec', 'contracts.messages_simple', 'contracts.extensions_codec', 'contracts.x509_dc', 'contracts.ske_write'],
@@ -19,7 +19,7 @@ PROPS = {
     'C16': ['contracts.m2_recordlayer', 'contracts.m2_getmsg', 'contracts.m2_posthandshake', 'contracts.sendmsg', 'contracts.m2_tls13_states'],
     'C17': ['contracts.m2_recordlayer', 'contracts.m2_getmsg', 'contracts.m2_posthandshake', 'contracts.transport', 'contracts.links', 'contracts.m2_server', 'contracts.m2_parse_safety'],
     'C11': ['contracts.c12_cbc_check', 'contracts.rsa', 'contracts.m2_server', 'contracts.small_extras'],
-    'C10': ['contracts.c12_cbc_check', 'contracts.rsa', 'contracts.kex', 'contracts.m2_signverify', 'contracts.small_extras', 'contracts.ecc_tables'],
+    'C10': ['contracts.c12_cbc_check', 'contracts.rsa', 'contracts.kex', 'contracts.m2_signverify', 'contracts.small_extras', 'contracts.ecc_tables', 'contracts.links'],
 }
 
 #: tasks that take minutes on their own (measured): run in the thorough tier only.  Their functions stay covered in
